@@ -91,6 +91,11 @@ func init() {
 			return "", w.quiesce()
 		}
 		seq := tp.currentCall.seq
+		// Only a timer the SERVER has armed can expire: Stop reports whether it was still pending. A timer the code has
+		// stopped (or never started) is left alone - the call then stays as it is and the monitors judge that.
+		if !tp.callEstablishmentTimer.Stop() {
+			return "", w.quiesce()
+		}
 		tp.callEstablishmentTimer.Reset(time.Nanosecond)
 		deadline := time.Now().Add(2 * time.Second)
 		for {
